@@ -171,14 +171,19 @@ structure SubStep (k : Key) (b : Bundle) (n n' : Node) : Prop where
   wf : WF n → WF n'
   env : SameEnv n n'
   other : ∀ k', k' ≠ k → n'.store.get k' = n.store.get k'
+  spray : ∀ k', k' ≠ k → lookupMeta n'.spray k' = lookupMeta n.spray k'
   idk : ∀ st, (lookupNat n'.idk st).isSome = true → (lookupNat n.idk st).isSome = true ∨ st = (b.src, b.ts)
 
 theorem KStep.subStep {k : Key} {b : Bundle} {n n' : Node} (h : KStep k n n') : SubStep k b n n' :=
-  ⟨h.wf, h.only.env, h.only.other, fun st hs => Or.inl (by rw [h.idk] at hs; exact hs)⟩
+  ⟨h.wf, h.only.env, h.only.other, h.only.spray, fun st hs => Or.inl (by rw [h.idk] at hs; exact hs)⟩
+
+theorem SubStep.only {k : Key} {b : Bundle} {n n' : Node} (h : SubStep k b n n') : OnlyKey k n n' :=
+  ⟨h.env, h.other, h.spray⟩
 
 theorem SubStep.trans {k : Key} {b : Bundle} {n₁ n₂ n₃ : Node} (h1 : SubStep k b n₁ n₂) (h2 : SubStep k b n₂ n₃) :
     SubStep k b n₁ n₃ :=
   ⟨fun w => h2.wf (h1.wf w), h1.env.trans h2.env, fun k' hk => (h2.other k' hk).trans (h1.other k' hk),
+   fun k' hk => (h2.spray k' hk).trans (h1.spray k' hk),
    fun st hs => by
     rcases h2.idk st hs with h | h
     · exact h1.idk st h
@@ -204,7 +209,7 @@ theorem lookupNat_setNat {α} [DecidableEq α] (l : List (α × Nat)) (a x : α)
 /-- The IdKeeper step of a new (source, time) pair. -/
 theorem subStep_idk (k : Key) (b : Bundle) (n : Node) (x : List ((Eid × Nat) × Nat))
     (hx : x = n.idk ∨ x = setNat n.idk (b.src, b.ts) 0) : SubStep k b n (n.setIdk x) := by
-  refine ⟨fun w => wf_idk w x, ⟨rfl, rfl, rfl, rfl⟩, fun _ _ => rfl, ?_⟩
+  refine ⟨fun w => wf_idk w x, ⟨rfl, rfl, rfl, rfl⟩, fun _ _ => rfl, fun _ _ => rfl, ?_⟩
   intro st hs
   simp only [setIdk_idk] at hs
   rcases hx with h | h
